@@ -1,9 +1,228 @@
-"""Wire-level generators for C13 (filled in once the endpoint engines exist)."""
+"""Wire-level generators for C13: ids of request frames on real endpoints (with a reduced id space so that the
+allocator wraps within a run) and the duplicate-id clause against a raw peer."""
+import asyncio
 
 
 def plan(tier, seed):
-    return []
+    return [('wire-wrap', 200 if tier == 'quick' else 8000), ('dup-id', len(_dup_cases()))]
+
+
+async def _wrap(rng, desc):
+    from ..pair import Pair
+    from .. import mixgen
+    cfg = mixgen.draw_config(rng, frags=(None, 64))
+    cfg['instrument_queue'] = True
+    p = Pair(rng, cfg)
+    p.driver.horizon = 5000.0
+    await p.start()
+    for side in 'cs':
+        p.ep(side)._stream_control._maximum_stream_id = desc['space']
+    world = p.world
+    specs = desc['_specs']
+    for s in specs:
+        world.specs[s['iid']] = s
+        world.inter[s['iid']] = {}
+    # sequential waves so that ids wrap while the long-lived streams stay active
+    waves = desc['_waves']
+    tasks = []
+    for wave in waves:
+        ts = [asyncio.ensure_future(p.driver.run_interaction(p.ep(s['side']), s['side'], s)) for s in wave]
+        tasks += ts
+        short = [t for t, s in zip(ts, wave) if not s.get('long')]
+        if short:
+            await asyncio.wait(short)
+        await asyncio.sleep(0.05)
+    await asyncio.sleep(1.0)
+    for t in tasks:
+        t.cancel()
+    await p.close()
+    return p
+
+
+def judge_ids(world, space):
+    """Per endpoint: every request frame it decides to send must carry a legal, fresh id that is the next free id
+    after its previous allocation (cyclic, +2), skipping only 0 and ids it still holds open."""
+    from ..protocol_model import LegalityAutomaton, REQ
+    wit = []
+    st = {'request_ids_checked': 0, 'wire_wraps_seen': 0, 'ids_skipped_because_active': 0}
+    for ep, role in (('c', 'client'), ('s', 'server')):
+        a = LegalityAutomaton(role)
+        a.sent_any = True
+        parity = 1 if role == 'client' else 0
+        last = None
+        size = space + 1
+        for e in world.events:
+            if e.get('ep') != ep:
+                continue
+            if e['kind'] == 'wire' and e['dir'] == 'recv':
+                a.on_recv(e['f'])
+            elif e['kind'] == 'queue':
+                f = e['f']
+                if f.get('type') in REQ:
+                    sid = f['sid']
+                    st['request_ids_checked'] += 1
+                    open_ids = {s.sid for s in a.streams.values() if not s.dead and s.role == 'requester'}
+                    ctx = {'endpoint': ep, 'stream_id': sid, 'previous_id': last, 'open_ids': sorted(open_ids),
+                           'space': space}
+                    if sid == 0:
+                        wit.append({'clause': 'request-on-stream-0', 'detail': ctx})
+                    elif (sid & 1) != parity:
+                        wit.append({'clause': 'request-id-wrong-parity', 'detail': ctx})
+                    elif sid in open_ids:
+                        wit.append({'clause': 'request-id-still-active', 'detail': ctx})
+                    elif sid > space:
+                        wit.append({'clause': 'request-id-outside-space', 'detail': ctx})
+                    else:
+                        cur = last if last is not None else (parity - 2) % size
+                        skipped = []
+                        steps = 0
+                        while True:
+                            cur = (cur + 2) % size
+                            steps += 1
+                            if cur == sid or steps > size:
+                                break
+                            skipped.append(cur)
+                        wrongly = [x for x in skipped if x != 0 and x not in open_ids]
+                        st['ids_skipped_because_active'] += sum(1 for x in skipped if x in open_ids)
+                        if last is not None and sid <= last:
+                            st['wire_wraps_seen'] += 1
+                        if wrongly:
+                            wit.append({'clause': 'free-id-skipped', 'detail': dict(ctx, skipped_free_ids=wrongly)})
+                    last = sid
+                if f.get('type') not in ('SETUP',):
+                    a.on_send(f)
+    return wit, st
+
+
+def gen_wrap(rng):
+    from .. import mixgen
+    space = rng.choice([0x7, 0xF, 0xF, 0x1F])
+    specs = []
+    waves = []
+    iid = 1
+    nwaves = rng.choice([6, 10, 16])
+    cfg_stub = {'frag_c': None, 'frag_s': None}
+    for w in range(nwaves):
+        wave = []
+        for side in 'cs':
+            for _ in range(rng.choice([0, 1, 1, 2, 3])):
+                model = rng.choice(['rr', 'rr', 'fnf', 'stream', 'stream'])
+                s = {'iid': iid, 'side': side, 'model': model, 'start': ('none',), 'req': (12, 0)}
+                long_lived = False
+                if model == 'rr':
+                    s['resp'] = {'size': (4, 0), 'outcome': 'ok', 'delay': rng.choice([('none',), ('ticks', 2)])}
+                    if rng.random() < 0.15:
+                        s['resp']['outcome'] = 'never'
+                        long_lived = True
+                elif model == 'stream':
+                    term = 'never' if rng.random() < 0.3 else rng.choice(['complete', 'flag'])
+                    s['resp'] = {'elems': [(3, 0)] * rng.choice([0, 1, 3]), 'terminal': term, 'pacing': ('sync',),
+                                 'source': 'rec'}
+                    s['n0'], s['policy'] = 5, ('refill', 5, 0)
+                    long_lived = term == 'never'
+                if long_lived:
+                    s['long'] = True
+                specs.append(s)
+                wave.append(s)
+                iid += 1
+        waves.append(wave)
+    return {'space': space, 'waves': [[s['iid'] for s in w] for w in waves], '_specs': specs, '_waves': waves,
+            'interactions': [{k: v for k, v in s.items() if k in ('iid', 'side', 'model', 'long')} for s in specs]}
+
+
+# ---- duplicate id ---------------------------------------------------------
+
+
+def _dup_cases():
+    out = []
+    for real in 'sc':
+        for active in ('rr', 'stream', 'channel'):
+            for second in ('REQUEST_RESPONSE', 'REQUEST_STREAM', 'REQUEST_CHANNEL', 'REQUEST_FNF'):
+                for link in ('bytes', 'messages'):
+                    out.append({'real': real, 'active': active, 'second': second, 'link': link})
+    return out
+
+
+async def _dup(rng, case):
+    from ..rawpeer import RawWorld
+    from ..apps import make_payload, pkey, DIR_REQUEST, DIR_RESPONSE
+    real = case['real']
+    rw = RawWorld(rng, real, link_kind=case['link'])
+    world = rw.world
+    await rw.start()
+    peer = rw.peer
+    await asyncio.sleep(0.2)
+    sid = 1 if real == 's' else 2
+    world.specs[1] = {'iid': 1, 'model': case['active'], 'side': 'x',
+                      'resp': {'size': (6, 0), 'outcome': 'ok', 'delay': ('virtual', 5.0),
+                               'elems': [(5, 0), (6, 0), (7, 0)], 'terminal': 'complete', 'pacing': ('sync',),
+                               'source': 'rec', 'up_n0': 1}}
+    world.specs[2] = {'iid': 2, 'model': 'rr', 'side': 'x', 'resp': {'size': (3, 0), 'outcome': 'ok',
+                                                                  'elems': [(9, 0)], 'terminal': 'complete'}}
+    world.inter[1] = {}
+    world.inter[2] = {}
+    t = {'rr': 'REQUEST_RESPONSE', 'stream': 'REQUEST_STREAM', 'channel': 'REQUEST_CHANNEL'}[case['active']]
+    f = {'type': t, 'sid': sid, 'data': make_payload(1, DIR_REQUEST, 0, 12, 0).data, 'metadata': None}
+    if case['active'] != 'rr':
+        f['n'] = 1
+    peer.send(f)
+    await asyncio.sleep(0.5)
+    since = len(peer.received)
+    g = {'type': case['second'], 'sid': sid, 'data': make_payload(2, DIR_REQUEST, 0, 12, 0).data, 'metadata': None}
+    if case['second'] in ('REQUEST_STREAM', 'REQUEST_CHANNEL'):
+        g['n'] = 5
+    peer.send(g)
+    await asyncio.sleep(1.0)
+    errors = [x for x in peer.frames('ERROR', sid, since)]
+    second_handled = [e for e in world.events if e['kind'] == 'handler' and e.get('iid') == 2]
+    # the original stream must still work
+    if case['active'] != 'rr':
+        peer.send({'type': 'REQUEST_N', 'sid': sid, 'n': 5})
+    await asyncio.sleep(6.0)
+    got = peer.reassembled(sid)
+    await rw.close()
+    if case['active'] == 'rr':
+        want = [pkey(make_payload(1, DIR_RESPONSE, 0, 6, 0))]
+    else:
+        want = [pkey(make_payload(1, DIR_RESPONSE, i, dl, ml)) for i, (dl, ml) in enumerate([(5, 0), (6, 0), (7, 0)])]
+    elems = [(bytes(x.get('data') or b''), bytes(x.get('metadata') or b'')) for x in got
+             if x['type'] == 'PAYLOAD' and (x.get('next') or x.get('data'))]
+    return errors, second_handled, elems == want, [x for x in got]
 
 
 def run_case(gen, idx, rng, tier):
-    raise KeyError(gen)
+    from .. import vloop
+    from ..runner import short_hash
+    from ..minicodec import brief
+    base = {'allocations_compared': 0, 'wraps_seen': 0, 'exhaustion_agreed': 0}
+    if gen == 'wire-wrap':
+        desc = gen_wrap(rng)
+        p = vloop.run(_wrap(rng, desc))
+        wit, st = judge_ids(p.world, desc['space'])
+        public = {k: v for k, v in desc.items() if not k.startswith('_')}
+        seen = set()
+        ws = []
+        for w in wit:
+            if w['clause'] not in seen:
+                seen.add(w['clause'])
+                w['detail']['case'] = public
+                ws.append(w)
+        d = dict(base)
+        d.update({'request_ids_checked': st['request_ids_checked'], 'wire_wraps_seen': st['wire_wraps_seen'],
+                  'ids_skipped_because_active': st['ids_skipped_because_active']})
+        return {'evals': 1, 'nt_keys': [short_hash(public)] if st['wire_wraps_seen'] else [], 'deciding': d,
+                'witnesses': ws, 'sigs': [p.world.signature()], 'sample': public}
+    case = _dup_cases()[idx]
+    errors, second_handled, original_ok, got = vloop.run(_dup(rng, case))
+    wit = []
+    if [e['code'] for e in errors] != [0x202]:
+        wit.append({'clause': 'duplicate-id-not-rejected', 'detail': {'case': case,
+                                                                      'errors': [brief(e) for e in errors]}})
+    if second_handled:
+        wit.append({'clause': 'duplicate-id-request-reached-the-handler', 'detail': {'case': case}})
+    if not original_ok:
+        wit.append({'clause': 'original-stream-replaced-or-broken', 'detail': {'case': case,
+                                                                               'frames': [brief(x) for x in got]}})
+    d = dict(base)
+    d['dup_request_rejected'] = 1 if not wit else 0
+    return {'evals': 1, 'nt_count': 1, 'deciding': d, 'witnesses': wit, 'sample': case}
